@@ -182,6 +182,16 @@ template<class T> void drive(Rng& rng) {
     { uint64_t one = W == 32 ? 0x3F800000ull : 0x3FF0000000000000ull;
       std::vector<uint64_t> far = { one * 1, one + (1ull << 31), one + (1ull << 32), one + (1ull << 31) + 1, uint64_t(W == 64 ? one + (1ull << 52) : one + (1ull << 23)), uint64_t(W == 64 ? one + (1ull << 33) + 3 : 0x7F000000ull), uint64_t(0), uint64_t(1ull << (W == 32 ? 23 : 52)) };
       for (uint64_t f : far) for (int n : { 0, 1, 64 }) { if (W == 32 && f > 0x7F7FFFFFull) continue; ulp_pair<T>(one, f, n); ulp_pair<T>(f | SIGN, one | SIGN, n); uint64_t xb[4] = { one, f, one, 0 }, yb[4] = { f, one, one + 1, f }; ulp_vec<4, T, glm::defaultp>(xb, yb, n); ulp_vec<3, T, glm::defaultp>(xb, yb, n); } }
+    // far-apart pairs of OPPOSITE sign (x, -y): the distance across zero is the sum of two magnitudes, which must not wrap either
+    { std::vector<double> mags = { 0.5, 1.0, 2.0, 3.0, 1024.0, 1e30, 3e38, 1e-30 };
+      for (double m : mags) for (double m2 : { m, 2.0, 1e-3 }) for (int n : { 0, 1, 64 }) {
+        uint64_t p = to_bits(T(m)), q = to_bits(T(-m2));
+        ulp_pair<T>(p, q, n); ulp_pair<T>(q, p, n);
+        uint64_t xb[4] = { p, q, p, q }, yb[4] = { q, p, p, q };
+        ulp_vec<4, T, glm::defaultp>(xb, yb, n); ulp_vec<2, T, glm::mediump>(xb, yb, n);
+        uint64_t bm[16], om[16]; for (int i = 0; i < 16; ++i) { bm[i] = p; om[i] = p; } om[5] = q; om[14] = q;
+        ulp_mat<4, 4, T>(bm, om, n); ulp_mat<2, 3, T>(bm, om, n);
+      } }
     // matrices: every shape; differing element placed at every (column,row) in turn
     { uint64_t base[16], oth[16]; uint64_t one = W == 32 ? 0x3F800000ull : 0x3FF0000000000000ull;
       for (int p = 0; p < 16; ++p) for (long d : { 1L, 3L, 70L }) for (int n : { 2, 64 }) {
